@@ -1,5 +1,6 @@
 """Engine dynarr: C13 (control configuration) and the capacity half of C10."""
 import os
+import subprocess
 import time
 
 from orch import *  # noqa
@@ -26,6 +27,105 @@ REAL = ["sbepp.hpp: dynamic_array_ref, byte_range, get_value/set_primitive, buil
 STUB = ["the medium holding the view's bytes (guard-paged arena, seeded stale content)", "sbepp::assertion_failed (records and unwinds)", "the caller (seeded operation history)"]
 
 
+# ---------------------------------------------------------------------------------------------
+# Call forms: "operations valid for a vector are valid here" has a half that no history can reach - a call
+# form that std::vector accepts and dynamic_array_ref rejects does not get as far as running. Each form below is
+# compiled (syntax only) against std::vector<V> and against dynamic_array_ref<char, V, uint32, little>; a form
+# the vector accepts must compile for the view too. This is a build-time adjunct of the history engine, not a
+# simulation: it decides whether the operations the histories are made of exist in the forms a vector user writes.
+CALL_FORMS = [
+    ("assign(count, value) with integer literals", "a.assign(3, 65);"),
+    ("assign(count, value) with typed arguments", "a.assign(static_cast<typename T::size_type>(3), V(65));"),
+    ("assign(count, value), count an unsigned literal", "a.assign(3u, 65);"),
+    ("insert(pos, count, value) with integer literals", "a.insert(a.begin(), 2, 65);"),
+    ("insert(pos, value)", "a.insert(a.begin(), 65);"),
+    ("insert(pos, first, last)", "a.insert(a.begin(), src.begin(), src.end());"),
+    ("insert(pos, initializer_list)", "a.insert(a.end(), {V(1), V(2)});"),
+    ("resize(count)", "a.resize(3);"),
+    ("resize(count, value) with integer literals", "a.resize(3, 65);"),
+    ("push_back(integer literal)", "a.push_back(65);"),
+    ("pop_back()", "a.pop_back();"),
+    ("assign(initializer_list)", "a.assign({V(1), V(2)});"),
+    ("assign(first, last) from vector iterators", "a.assign(src.begin(), src.end());"),
+    ("assign(first, last) from pointers", "a.assign(src.data(), src.data() + src.size());"),
+    ("assign(first, last) from const pointers", "{ const V* f = src.data(); a.assign(f, f + src.size()); }"),
+    ("erase(pos)", "a.erase(a.begin());"),
+    ("erase(first, last) up to end()", "a.erase(a.begin(), a.end());"),
+    ("clear()", "a.clear();"),
+    ("range-for and element access", "for(auto x : a) (void)x; (void)a[0]; (void)a.front(); (void)a.back(); (void)a.size(); (void)a.empty();"),
+]
+PROBE_TU = """#include <vector>
+#include <cstdint>
+#include <cstddef>
+#include <sbepp/sbepp.hpp>
+using V = %s;
+template<typename T> void form(T& a, std::vector<V>& src) { %s }
+#ifdef PROBE_VECTOR
+template void form(std::vector<V>&, std::vector<V>&);
+#else
+using A = sbepp::detail::dynamic_array_ref<char, V, sbepp::uint32_t, sbepp::endian::little>;
+template void form(A&, std::vector<V>&);
+#endif
+int main() {}
+"""
+
+
+def call_form_probe(out, form, stmt, vtype, std="c++17"):
+    """-> (valid for vector, valid for the view, compiler message for the view)"""
+    os.makedirs(out, exist_ok=True)
+    tu = os.path.join(out, "probe_%d.cpp" % os.getpid())
+    with open(tu, "w") as fh:
+        fh.write(PROBE_TU % (vtype, stmt))
+    base = ["g++", "-std=" + std, "-fsyntax-only", "-w", "-I" + os.path.join(REPO, "sbepp/src"), "-DSBEPP_ENABLE_ASSERTS_WITH_HANDLER", tu]
+    rv = subprocess.run(base + ["-DPROBE_VECTOR"], stdout=subprocess.PIPE, stderr=subprocess.STDOUT, text=True, errors="replace")
+    ra = subprocess.run(base, stdout=subprocess.PIPE, stderr=subprocess.STDOUT, text=True, errors="replace")
+    os.unlink(tu)
+    msg = [l for l in ra.stdout.split("\n") if "error" in l]
+    return rv.returncode == 0, ra.returncode == 0, (msg[0] if msg else "")[:300]
+
+
+def run_call_forms(out):
+    """-> (probes compiled, forms valid for a vector, violations printed)"""
+    from concurrent.futures import ThreadPoolExecutor
+    jobs = [(f, s, v, std) for f, s in CALL_FORMS for v in ("char", "std::uint8_t", "std::int8_t") for std in ("c++17", "c++20")]
+
+    def one(j):
+        f, s, v, std = j
+        return j, call_form_probe(os.path.join(out, "probe-%s-%s-%d" % (v.replace(":", ""), std.replace("+", "p"), abs(hash(f)) % 100000)), f, s, v, std)
+
+    with ThreadPoolExecutor(max_workers=8) as ex:
+        results = list(ex.map(one, jobs))
+    nvalid = nviol = 0
+    reported = set()
+    os.makedirs(os.path.join(VERIF, "replays"), exist_ok=True)
+    for (f, s, v, std), (okv, oka, msg) in results:
+        if not okv:
+            continue  # not a form a vector accepts for this element type
+        nvalid += 1
+        if oka or f in reported:
+            continue
+        reported.add(f)
+        nviol += 1
+        final = os.path.join(VERIF, "replays", "C13-call-form-%d.plan" % [x[0] for x in CALL_FORMS].index(f))
+        with open(final, "w") as fh:
+            fh.write("property C13\nengine call-form-probe\nform %s\nstmt %s\nvalue %s\nstd %s\nexpect C13:valid-for-vector-does-not-compile\n# %s\n" % (f, s, v, std, msg))
+        log("VIOLATION property=C13 replay=%s" % final)
+        log("  signature=C13:valid-for-vector-does-not-compile form=`%s` element type %s (-std=%s)" % (f, v, std))
+        log("  detail: std::vector<%s> accepts `%s`, dynamic_array_ref<char, %s, uint32, little> does not: %s" % (v, s, v, msg))
+    log("[C13] call forms: %d probes, %d valid for std::vector, %d of those rejected by the view" % (len(results), nvalid, nviol))
+    return len(results), nvalid, nviol
+
+
+def replay_call_form(path):
+    kv = dict(l.split(" ", 1) for l in open(path).read().split("\n") if " " in l and not l.startswith("#"))
+    okv, oka, msg = call_form_probe(scratch_dir("C13"), kv["form"], kv["stmt"], kv["value"], kv["std"])
+    log("call form `%s` for %s: vector %s, view %s %s" % (kv["form"], kv["value"], "accepts" if okv else "rejects", "accepts" if oka else "rejects", msg))
+    if okv and not oka:
+        log("VIOLATION property=C13 replay=%s" % path)
+        return 1
+    return 0
+
+
 def run_c13(tier, args):
     t0 = time.time()
     d = build()
@@ -48,7 +148,8 @@ def run_c13(tier, args):
                 ("wire_checked", wbins["checked"], wn), ("wire_unchecked", wbins["unchecked"], wn // 2), ("wire_unchecked_O0", wbins["unchecked_O0"], wn // 4)]
     if tier != "quick":
         flavours += [("wire_checked_clang20", wbins["checked_clang20"], wn // 4), ("wire_unchecked_clang20", wbins["unchecked_clang20"], wn // 4)]
-    nviol = regbad + eng_wire.report_api_failures("C13", wd)
+    nprobe, nform, nformbad = run_call_forms(out)
+    nviol = regbad + eng_wire.report_api_failures("C13", wd) + nformbad
     herr = False
     for name, binary, cnt in flavours:
         b = run_batch(binary, "C13", tier, first, cnt, out)
@@ -67,6 +168,8 @@ def run_c13(tier, args):
         rule="two halves. dynarr: one evaluation = one seeded history (1-60 operations, swarm-selected op kinds, seeded stale initial medium) of dynamic_array_ref<Byte,Value,Length,E> instantiated by hand, checked op by op against std::vector. wire_*: one evaluation = one seeded history (1-14 operations) on a <data> member of a corpus schema as sbeppc generates it (its length type, the schema's byte order, the flavour's byte type), obtained through the named accessor, get_by_tag, accessor(cursor_ops::init(c)), accessor(cursor_ops::init_dont_move(c)) or get_by_tag(view, cursor); after every operation (the history prefix is re-run on a fresh copy of a frame produced by the reference encoder, followed by 300 bytes of slack and a guard page) the length prefix read from the buffer in the schema's byte order and width, size(), the payload, the positions of returned iterators and every byte outside the prefix and the payload area in use are compared with std::vector / the initial medium. distinct = distinct (build, length type, op kind, outcome, old-size class, new-size class vs capacity, position class) tuples that were actually executed (skipped ops excluded)",
         samples=total.samples[:4],
         operations_executed=ops,
+        call_form_probes=dict(compiled=nprobe, valid_for_vector=nform, rejected_by_view=nformbad, forms=[f for f, _ in CALL_FORMS],
+                              note="build-time adjunct: each form is compiled against std::vector<V> and dynamic_array_ref<char, V, uint32, little> for V in char / uint8_t / int8_t under C++17 and C++20; a form the vector accepts must compile for the view"),
         op_counts={k: v for k, v in sorted(total.counters.items())},
         histories_per_hour=int(total.runs / max(wall, 1e-9) * 3600),
         simulated_time="n/a (no clock in the system under test); steps = operations_executed",
@@ -95,6 +198,8 @@ def run_c10_capacity(tier, out, first):
 
 def replay(prop, path):
     plan = open(path).read()
+    if "\nengine call-form-probe" in plan:
+        return replay_call_form(path)
     if "\nengine wire" in plan:
         import eng_wire
         return eng_wire.replay(prop, path)
